@@ -1,7 +1,7 @@
 (* C04 — Invalid chains are reported as errors up front; nothing panics. *)
 From Coq Require Import List Arith Bool Permutation.
 Import ListNotations.
-From NJ Require Import Base Edits Registry Classify Select Reorder Machine Spec Bind SpecLemmas ClassifyProofs ReorderProofs Refine Chain WfProofs FuelProofs.
+From NJ Require Import Base Edits Registry Classify Select Reorder Machine Spec Bind SpecLemmas ClassifyProofs ReorderProofs Refine Chain WfProofs FuelProofs OrderProofs TopoFuel.
 
 (* Run time: a bound chain (plan passing the decidable check evaluated on every case) never hands
    reflect.Call an invalid Value — the only way the slot machine can fail — for any provider
@@ -80,3 +80,50 @@ Theorem C04_keep_closure_fuel_suffices : forall useLast groups funcs k,
   keep_closure (fuel + k) useLast groups funcs roots [] = keep_closure fuel useLast groups funcs roots [].
 Proof. exact propose_keep_fuel. Qed.
 Print Assumptions C04_keep_closure_fuel_suffices.
+
+(* Reorder's topological sort runs on fuel in the model and until its queues are empty in reorder.go.
+   Whenever the computable bound reorder_fuel_ok holds - the driver evaluates it on every generated
+   case and reports a case where it fails - the sort inside reorder_funcs ends with all queues empty
+   and any larger amount of fuel gives the same run (potential argument: every node is processed
+   once, processing queues at most one node per before-edge and per produced / received type). *)
+Theorem C04_reorder_sort_fuel_suffices : forall te funcs,
+  reorder_fuel_ok te funcs = true -> existsb is_reorder funcs = true ->
+  let '(st, x1) := reorder_prepare te funcs in
+  queues_empty (topo_run te funcs (rs_down st) (rs_up st) (reorder_fuel st) x1) /\
+  forall extra, topo_run te funcs (rs_down st) (rs_up st) (reorder_fuel st + extra) x1
+                = topo_run te funcs (rs_down st) (rs_up st) (reorder_fuel st) x1.
+Proof. exact reorder_fuel_sufficient. Qed.
+Print Assumptions C04_reorder_sort_fuel_suffices.
+
+Theorem C04_reorder_runs_that_sort : forall te funcs,
+  reorder_funcs te funcs =
+  if negb (existsb is_reorder funcs) then Ok funcs else
+  let '(st, x1) := reorder_prepare te funcs in
+  let n := length funcs in
+  let idx := seq_from 0 n in
+  let xf := topo_run te funcs (rs_down st) (rs_up st) (reorder_fuel st) x1 in
+  let out := t_out xf in
+  let missing := filter (fun i => negb (memb i (t_done xf))) idx in
+  let pick i := match getp funcs i with Some p => [p] | None => [] end in
+  let result := flat_map pick out ++ flat_map (fun i => map (set_cannot true) (pick i)) missing in
+  if length result =? n then Ok result else Err EB_INTERNAL.
+Proof. exact reorder_funcs_prepare. Qed.
+Print Assumptions C04_reorder_runs_that_sort.
+
+(* non-vacuity: a list with a Reorder'd injector listed before its producer; the bound holds, the
+   start state has work queued, and the run empties the queues *)
+Definition fx_ty (c : nat) : tyinfo := mkTy c false 1 0 true true false [] 0.
+Definition fx_te : tyenv := mkTyenv [fx_ty 10; fx_ty 11; fx_ty 12] 1 2 3 4 5.
+Definition fx_prov (pid : nat) (cl : classT) (g : groupT) (reo : bool) (ins outs : list nat) : prov :=
+  mk_prov (mkSprov (mkPdesc pid 0 0 0 0 (ShFn ins outs) false false false false false false reo false false false false false 0
+                            [] None None [] 0 [] false)
+                   cl g (mkFlows None (Some outs) (Some ins) None None) false false false false None None).
+Definition fx_funcs : list prov :=
+  [fx_prov 1 ClInjector GRun false [] [10]; fx_prov 2 ClInjector GRun true [11] [12];
+   fx_prov 3 ClInjector GRun false [10] [11]; fx_prov 4 ClFinal GFinal false [12] []].
+Example C04_reorder_fuel_nonvacuous :
+  reorder_fuel_ok fx_te fx_funcs = true /\ existsb is_reorder fx_funcs = true /\
+  0 < phi fx_te fx_funcs (snd (reorder_prepare fx_te fx_funcs)) /\
+  phi fx_te fx_funcs (snd (reorder_prepare fx_te fx_funcs)) <= reorder_fuel (fst (reorder_prepare fx_te fx_funcs)).
+Proof. vm_compute. repeat split; repeat constructor. Qed.
+Print Assumptions C04_reorder_fuel_nonvacuous.
